@@ -967,18 +967,23 @@ def rule_signspan(ctx, rep, rid="R-C05-signspan"):
             if not norm(b.id).startswith(GRAM + rule.name + "::{closure") or b.f.get("parent") is None:
                 continue
             for c in b.calls():
-                if not (c.callee or "").endswith("SignedInteger::new") or len(c.args) < 2:
+                cal = c.callee or ""
+                if "::SignedInteger::" not in cal or not c.args or cal.split("::")[-1] in ("clone", "fmt", "span"):
                     continue
                 n += 1
-                p = op_place(c.args[1])
-                d = b.single_def(b.root(p)[0]) if p is not None else None
-                inst = "rule %s|SignedInteger::new span" % rule.name
+                inst = "rule %s|span of the number" % rule.name
                 where = "parser/src/parser.rs:%d" % sq.line
-                joined = bool(d and d[0] == "call" and (d[2].callee or "").split("::")[-1] in ("join", "join2", "range"))
+                joined = False
+                for a in c.args[1:]:
+                    p = op_place(a)
+                    d = b.single_def(b.root(p)[0]) if p is not None else None
+                    if d and d[0] == "call" and (d[2].callee or "").split("::")[-1] in ("join", "join2", "range"):
+                        joined = True
                 if joined:
                     r.ok(inst, where, "joined from the sign and the digits")
                 else:
-                    r.finding(inst + "|digits-only", where, "the number is built from `-` and digits but its span is the digits' alone: a label on it leaves out the sign")
+                    r.finding(inst + "|not-from-sign-and-digits", where, "the number is built from `-` and digits but the constructor is given %s: a label on it leaves out the sign"
+                              % ("the span of the digits alone" if len(c.args) > 1 else "no span at all"))
     if not n:
         rep.error(rid, "no grammar action builds a SignedInteger from a mandatory sign token and a digits token")
 
